@@ -28,10 +28,10 @@ def run(ctx, rep) -> None:
     # (clause: the finalizer is not withdrawn under a live matching daemon before backoff + timeout have passed)
     from concurrent.futures import ProcessPoolExecutor
     from vf import daemons as D
-    dscs = D.gen_scenarios(ctx.seed + 1, 120 if ctx.quick else 3000)
+    dscs = D.gen_scenarios(ctx.seed, 260 if ctx.quick else 3000)
     with ProcessPoolExecutor(16) as ex:
         dtraces = list(ex.map(D.run_scenario, dscs, chunksize=4))
-    dv = D.judge(dtraces, rep)
+    dv = D.judge(dtraces, rep, focus='finalizer_released_while_daemon_alive')
     rep.evaluations += len(dtraces); rep.traces += len(dtraces)
     for t in dtraces:
         if any(e['ev'] == 'released' for e in t['events']):
